@@ -226,27 +226,72 @@ def b_get(I, inst, args, kwargs):
         return fb
     val = merged[key]
     raw = kwargs.get("raw")
-    if isinstance(val, Const) and isinstance(val.v, str) and "${" in val.v and not (isinstance(raw, Const) and raw.v):
-        def repl(m):
-            path = m.group(1).split(":")
-            if len(path) == 1:
-                k2 = _xform(I, inst, path[0])
-                if k2 in merged:
-                    return _s(merged[k2])
-                _raise("InterpolationMissingOptionError", o, s, val.v, path[0])
-            sec2 = path[0]
-            try:
-                d2 = _sectdict(I, inst, sec2)
-            except RaiseSignal:
-                _raise("InterpolationMissingOptionError", o, s, val.v, m.group(1))
-            k2 = Const(_xform(I, inst, path[1])).key()
-            if k2 in d2.items:
-                return _s(d2.items[k2][1])
-            if k2 in _d(inst, "_defaults").items:
-                return _s(_d(inst, "_defaults").items[k2][1])
-            _raise("InterpolationMissingOptionError", o, s, val.v, m.group(1))
-        return Const(_PLACEHOLDER.sub(repl, val.v))
+    if isinstance(val, Const) and isinstance(val.v, str) and "$" in val.v and not (isinstance(raw, Const) and raw.v):
+        return Const(_interpolate_some(I, inst, key, val.v, s, merged, 1, val.v))
     return val
+
+
+_KEYCRE = _re.compile(r"\$\{([^}]+)\}")
+_MAX_DEPTH = 10
+
+
+def _interpolate_some(I, inst, option, rest, section, map_, depth, rawval):
+    """ExtendedInterpolation._interpolate_some as documented and shipped: '$$' is a dollar sign, '${name}' looks name up
+    (through optionxform) in the current section merged with the defaults and the caller's vars, '${section:name}' calls
+    parser.get(section, name, raw=True) - the parser's own, possibly overridden, method - and a value that itself holds a '$'
+    is expanded in the context of the section it came from, whose entries are dict(parser.items(section, raw=True)) -
+    again the parser's own method.  map_: {key: value}"""
+    if depth > _MAX_DEPTH:
+        _raise("InterpolationDepthError", option, section, rawval)
+    accum = []
+    while rest:
+        p = rest.find("$")
+        if p < 0:
+            accum.append(rest)
+            break
+        if p > 0:
+            accum.append(rest[:p])
+            rest = rest[p:]
+        c = rest[1:2]
+        if c == "$":
+            accum.append("$")
+            rest = rest[2:]
+        elif c == "{":
+            m = _KEYCRE.match(rest)
+            if m is None:
+                _raise("InterpolationSyntaxError", option, section, "bad interpolation variable reference %r" % rest)
+            path = m.group(1).split(":")
+            rest = rest[m.end():]
+            sect, opt = section, option
+            if len(path) == 1:
+                opt = _xform(I, inst, path[0])
+                if opt not in map_:
+                    _raise("InterpolationMissingOptionError", option, section, rawval, ":".join(path))
+                v = _s(map_[opt])
+            elif len(path) == 2:
+                sect = path[0]
+                opt = _xform(I, inst, path[1])
+                try:
+                    v = _s(I.call(I.getattr(inst, "get"), [Const(sect), Const(opt)], {"raw": TRUE}))
+                except RaiseSignal as e:
+                    nm = getattr(getattr(e.exc, "cls", None), "name", "") or ""
+                    if nm.split(".")[-1] in ("KeyError", "NoSectionError", "NoOptionError"):
+                        _raise("InterpolationMissingOptionError", option, section, rawval, ":".join(path))
+                    raise
+            else:
+                _raise("InterpolationSyntaxError", option, section, "More than one ':' found: %r" % rest)
+            if "$" in v:
+                items = I.call(I.getattr(inst, "items"), [Const(sect)], {"raw": TRUE})
+                m2 = {}
+                for it in I.as_iterable(items).items:
+                    kv = I.as_iterable(it).items
+                    m2[_s(kv[0])] = kv[1]
+                accum.append(_interpolate_some(I, inst, opt, v, sect, m2, depth + 1, rawval))
+            else:
+                accum.append(v)
+        else:
+            _raise("InterpolationSyntaxError", option, section, "'$' must be followed by '$' or '{', found: %r" % (rest,))
+    return "".join(accum)
 
 
 def b_set(I, inst, args, kwargs):
@@ -390,10 +435,20 @@ def b_items(I, inst, args, kwargs):
     if not args:
         raise AnalysisError("items() without a section is not modelled")
     s = _s(args[0])
-    opts = b_options(I, inst, [Const(s)], {})
+    extra = set(kwargs) - {"raw", "vars"}
+    if extra or len(args) > 1:
+        raise AnalysisError("configparser model: items() with %s" % (sorted(extra) or "positional raw/vars"))
+    # library behaviour: the keys are those of the section merged with the defaults (and vars), whatever options() says
+    keys = []
+    for src in (_d(inst, "_defaults"), _sectdict(I, inst, s)):
+        for k, _ in src.items.values():
+            if _s(k) not in keys:
+                keys.append(_s(k))
+    # (the caller's vars add values, not keys)
+    kw = dict((k, v) for k, v in kwargs.items() if k in ("raw", "vars"))
     out = []
-    for k in opts.items:
-        out.append(ListV([k, b_get(I, inst, [Const(s), k], {})], "tuple"))
+    for k in keys:
+        out.append(ListV([Const(k), b_get(I, inst, [Const(s), Const(k)], dict(kw))], "tuple"))
     return ListV(out, "list")
 
 
